@@ -71,6 +71,8 @@ class OpaqueEC(object):
             x, y = SInt(xt), SInt(yt)
             c.add(z3.And(xt >= 0, xt < _t(p), yt >= 0, yt < _t(p)))
             c.add(F("OnCurve", I, I, B)(xt, yt))
+            # a multiple of a subgroup point is in the subgroup
+            c.add(F("InSub", I, I, B)(xt, yt))
             return PJ(curve, x, y, 1, order)
 
         def stub_mul(self_, other):
